@@ -788,3 +788,48 @@ def replace_cli(w, repo):
             rc, calls = go(opts, ["x{}y"], b"a b\nc d\n")
             res.append(("%s: %r" % (" ".join(opts), calls), calls == want and rc == 0))
     return _battery(res)
+
+
+def print0_pipe(w, repo):
+    """scenario battery: find START -print0 | xargs -0 CMD over a tree of awkward names, byte for byte"""
+    if not build(repo):
+        return None, "build failed"
+    res = []
+    names = [" ", "  x ", "-n", "--", "a\nb", "q'1", 'q"2', "b\\s", "{}", "$(id)", "*", "?[a]", "\t", ";", "a b c", "é中", ".h"]
+    with Sandbox() as d:
+        for start in ("r", "./r/", "-r", "r x"):
+            root = os.path.join(d, start.rstrip("/")) if not start.startswith("./") else os.path.join(d, "r")
+            if not os.path.isdir(root):
+                os.makedirs(root)
+                for n in names:
+                    open(os.path.join(root, n), "w").close()
+                os.makedirs(os.path.join(root, "sub dir", "-deep"))
+                open(os.path.join(root, "sub dir", "-deep", "f\n"), "w").close()
+        rec = os.path.join(d, "rec.sh")
+        out_path = os.path.join(d, "argv.bin")
+        open(rec, "w").write('#!/bin/sh\nfor a in "$@"; do printf "%s\\0" "$a" >> "' + out_path + '"; done\n')
+        os.chmod(rec, 0o755)
+        for start in ("r", "./r/", "-r", "r x"):
+            pre = ["--"] if start.startswith("-") else []
+            base = start if not start.startswith("-") else "./" + start
+            # expected: the starting point as given + '/'-joined names
+            exp = set()
+            top = os.path.join(d, base.rstrip("/") if base != "./r/" else "r")
+            for dp, dns, fns in os.walk(top):
+                rel = os.path.relpath(dp, top)
+                here = base if rel == "." else (base if base.endswith("/") else base + "/") + rel
+                exp.add(here)
+                for n in fns:
+                    exp.add((here if here.endswith("/") else here + "/") + n)
+            rc, out, err = run([find_bin(repo), base, "-print0"], cwd=d)
+            got = out.split(b"\0")
+            ok = rc == 0 and got[-1] == b"" and sorted(got[:-1]) == sorted(e.encode() for e in exp)
+            res.append(("find %s -print0: %d records, expected %d" % (base, len(got) - 1, len(exp)), ok))
+            if os.path.exists(out_path):
+                os.remove(out_path)
+            rc2, o2, e2 = run([xargs_bin(repo), "-0", rec], cwd=d, inp=out)
+            argv = open(out_path, "rb").read().split(b"\0")[:-1] if os.path.exists(out_path) else []
+            res.append(("... | xargs -0 CMD delivers each path once: %d arguments" % len(argv), rc2 == 0 and argv == got[:-1]))
+            rc, out, err = run([find_bin(repo), base, "-name", "-n", "-print"], cwd=d)
+            res.append(("find %s -name -n -print: %r" % (base, out), out == ((base if base.endswith("/") else base + "/") + "-n\n").encode()))
+    return _battery(res)
